@@ -1,0 +1,11 @@
+//go:build verif
+
+package stackless
+
+import "sync/atomic"
+
+// VerifQueueFullCount counts how often a stackless function found its worker
+// queue full (only with the "verif" build tag).
+var VerifQueueFullCount atomic.Int64
+
+func verifQueueFull() { VerifQueueFullCount.Add(1) }
